@@ -1029,6 +1029,9 @@ func (e *engine) action(allowBuild bool, invalidPct int) {
 	tipParents := append(e.procIDs(), e.last)
 	switch c := e.r.Intn(100); {
 	case c < 12 && allowBuild && e.ready: // build on the preference, verify, usually prefer it
+		if !e.isProc(e.pref) && e.pref != e.last {
+			e.do(opT{K: "setPref", A: e.last}) // the engine always has a live preference
+		}
 		ob := e.do(opT{K: "build"})
 		if ob.R.K == "blk" {
 			if e.r.Intn(8) != 0 {
